@@ -7,6 +7,10 @@ def run(ctx: Ctx) -> None:
     t5_derivs.run_derivatives(ctx)
     t5_derivs.run_stencils(ctx)
     t5_derivs.run_flowfields_curl(ctx)
+    t5_derivs.run_dtype(ctx)
+    t5_derivs.run_gaussian_spacing(ctx)
+    ctx.floor("T5.gaussian-spacing", 2)
+    ctx.floor("T5.dtype", 8)
     ctx.floor("T5.flowfields-curl", 8)
     ctx.floor("T5.stencil", 30)
     ctx.floor("T5.first-order", 12)
